@@ -82,6 +82,7 @@ fn judged(f: &Finding) -> bool {
     }
     let s = f.signature.as_str();
     s.starts_with("wake/")
+        || s.starts_with("stall/")
         || s.starts_with("integrity/")
         || s.starts_with("payload/")
         || s.starts_with("txbuf/")
